@@ -314,28 +314,40 @@ impl Operator {
                 }
             }
             Operator::GreaterThan => {
-                if let (Some(l), Some(r)) = (left.to_number(), right.to_number()) {
+                // Two integers are ordered exactly (f64 cannot tell apart integers beyond 2^53)
+                if let (Value::Integer(l), Value::Integer(r)) = (left, right) {
+                    l > r
+                } else if let (Some(l), Some(r)) = (left.to_number(), right.to_number()) {
                     l > r
                 } else {
                     false
                 }
             }
             Operator::GreaterThanOrEqual => {
-                if let (Some(l), Some(r)) = (left.to_number(), right.to_number()) {
+                // Two integers are ordered exactly (f64 cannot tell apart integers beyond 2^53)
+                if let (Value::Integer(l), Value::Integer(r)) = (left, right) {
+                    l >= r
+                } else if let (Some(l), Some(r)) = (left.to_number(), right.to_number()) {
                     l >= r
                 } else {
                     false
                 }
             }
             Operator::LessThan => {
-                if let (Some(l), Some(r)) = (left.to_number(), right.to_number()) {
+                // Two integers are ordered exactly (f64 cannot tell apart integers beyond 2^53)
+                if let (Value::Integer(l), Value::Integer(r)) = (left, right) {
+                    l < r
+                } else if let (Some(l), Some(r)) = (left.to_number(), right.to_number()) {
                     l < r
                 } else {
                     false
                 }
             }
             Operator::LessThanOrEqual => {
-                if let (Some(l), Some(r)) = (left.to_number(), right.to_number()) {
+                // Two integers are ordered exactly (f64 cannot tell apart integers beyond 2^53)
+                if let (Value::Integer(l), Value::Integer(r)) = (left, right) {
+                    l <= r
+                } else if let (Some(l), Some(r)) = (left.to_number(), right.to_number()) {
                     l <= r
                 } else {
                     false
